@@ -5,7 +5,7 @@ EXTENDS OCSP, Json
 
 Emit == Parsed => PrintT("TRACE " \o ToJson([
           signer |-> cfg.signer, respId |-> cfg.respId, status |-> cfg.status, issuerGiven |-> cfg.issuerGiven,
-          issuerSelfSigned |-> cfg.issuerSelfSigned, certArg |-> cfg.certArg, region |-> cfg.region,
+          issuerSelfSigned |-> cfg.issuerSelfSigned, certArg |-> cfg.certArg, region |-> cfg.region, imp |-> cfg.imp,
           sigKey |-> SigKey(cfg.signer), emb |-> Embedded(cfg.signer, cfg.issuerSelfSigned),
           maker |-> IF cfg.respId = "byKey" THEN "harness-encoder" ELSE "CreateResponse",
           d |-> res.d, authorized |-> Authorized(resp), rstatus |-> res.status, rrespId |-> res.respId, hasCert |-> res.hasCert]))
